@@ -271,8 +271,9 @@ def main(argv=None):
         violations += 1
         rc = 1
     known_bounded = {}
+    open_keys = {e['bounded_key']: e['id'] for e in findings if e.get('status') == 'open' and e.get('bounded_key')}
     for bname, v in bviol:
-        kid = v.get('known_id')
+        kid = v.get('known_id') or open_keys.get(v.get('key'))
         if kid:
             known_bounded.setdefault(kid, []).append(v.get('what', ''))
             continue
